@@ -249,7 +249,7 @@ func (f *function) evaluate() (data string, changed bool, err error) {
 
 	var buf bytes.Buffer
 	b64 := base64.NewEncoder(base64.StdEncoding, &buf)
-	if err := pickle.NewEncoder(b64, pickle.PicklerFunc(envPickler)).Encode(f.function); err != nil {
+	if err := pickle.NewEncoder(b64, newEnvPickler()).Encode(f.function); err != nil {
 		return "", false, err
 	}
 	b64.Close()
@@ -293,10 +293,30 @@ func (f *function) load() error {
 // pickler.
 func functionEnv(f starlark.Callable) (starlark.Value, error) {
 	var buf bytes.Buffer
-	if err := pickle.NewEncoder(&buf, pickle.PicklerFunc(envPickler)).Encode(f); err != nil {
+	if err := pickle.NewEncoder(&buf, newEnvPickler()).Encode(f); err != nil {
 		return nil, err
 	}
 	return pickle.NewDecoder(&buf, pickle.UnpicklerFunc(envUnpickler)).Decode()
+}
+
+// newEnvPickler returns a pickler for a single encoding of a function's environment.
+//
+// The encoder memoizes a pickled object only after its arguments have been encoded, so a function
+// whose environment refers back to the function itself (recursion, mutual recursion) would be
+// pickled again and again. Once a function has been memoized the pickler is never asked about it
+// again, so a second request for the same function means that its arguments are still being
+// encoded: such a reference is pickled as (NEWOBJ "dawn" "Recursion" (name)).
+func newEnvPickler() pickle.PicklerFunc {
+	inProgress := map[*starlark.Function]bool{}
+	return func(x starlark.Value) (module, name string, args starlark.Tuple, err error) {
+		if fn, ok := x.(*starlark.Function); ok {
+			if inProgress[fn] {
+				return "dawn", "Recursion", starlark.Tuple{starlark.String(fn.Name())}, nil
+			}
+			inProgress[fn] = true
+		}
+		return envPickler(x)
+	}
 }
 
 // envPickler provides support for pickling functions and modules.
@@ -304,6 +324,9 @@ func functionEnv(f starlark.Callable) (starlark.Value, error) {
 // - Builtins are pickled as (NEWOBJ "dawn" "Builtin" ())
 // - Function code is pickled as (NEWOBJ "dawn" "FunctionCode" (module, globals, bytecode))
 // - Functions are pickled as (NEWOBJ "dawn" "Function" (defaults, freevars, code)).
+//
+// Use newEnvPickler rather than calling envPickler directly: envPickler does not terminate on
+// functions that refer to themselves.
 func envPickler(x starlark.Value) (module, name string, args starlark.Tuple, err error) {
 	switch x := x.(type) {
 	case *function:
@@ -339,6 +362,11 @@ func envUnpickler(module, name string, args starlark.Tuple) (starlark.Value, err
 			return nil, fmt.Errorf("expcted 1 arg, got %v", len(args))
 		}
 		return args[0], nil
+	case "Recursion":
+		if len(args) != 1 {
+			return nil, fmt.Errorf("expected 1 arg, got %v", len(args))
+		}
+		return starlark.Tuple{starlark.String("recursive reference"), args[0]}, nil
 	case "Builtin":
 		if len(args) != 0 {
 			return nil, fmt.Errorf("expected 0 args, got %v", len(args))
